@@ -174,6 +174,40 @@ def big_weight_cases(rep: Report, rng: Rng):
                                   {"kind": "big-weights", "class": name, "state": st, "weights": ws, "weight_dtype": str(wdt), "score_dtype": str(xdt), "got": got, "want": want})
 
 
+SCALAR_PLANS = {
+    "Sum.weighted_sum": (lambda M: M.Sum(), "weighted_sum", lambda m, x, w: m.update(x, weight=w)),
+    "Mean.weights": (lambda M: M.Mean(), "weights", lambda m, x, w: m.update(x, weight=w)),
+    "Mean.weighted_sum": (lambda M: M.Mean(), "weighted_sum", lambda m, x, w: m.update(x, weight=w)),
+}
+
+
+def scalar_weight_case(plan: str, w: float, n: int, reps: int):
+    """float64 samples all equal to 1 with a python-float weight that float32 cannot hold (2^24+1, 2^30+1 …): every total is an
+    integer far below 2^53, so the float64 accumulators must hold n·reps·w exactly — a scalar weight that is squeezed through a
+    float32 tensor on its way shows here.  returns (got, want)."""
+    import torcheval.metrics as M
+    ctor, st, upd = SCALAR_PLANS[plan]
+    m = ctor(M)
+    x = torch.ones(n, dtype=torch.float64)
+    for _ in range(reps):
+        upd(m, x, w)
+    return getattr(m, st).to(torch.float64).reshape(-1)[0].item(), float(n * reps) * w
+
+
+def scalar_weight_cases(rep: Report, rng: Rng):
+    for plan in SCALAR_PLANS:
+        for w in (float(2 ** 24 + 1), float(2 ** 30 + 1), float(2 ** 24 + 1) * 3):
+            n, reps = rng.choice([1, 3, 5]), rng.choice([1, 2, 3])
+            got, want = scalar_weight_case(plan, w, n, reps)
+            rep.case(nontrivial_key=("scalar-weight", plan, w, n, reps), sample=None)
+            rep.count("scalar-weights:cases")
+            if got != want:
+                cls, st = plan.split(".")
+                rep.violation(f"C19|{cls}|{st}|scalar-weight-rounded",
+                              f"{plan} after {reps} update(s) of {n} float64 ones with the python float weight {w:.1f} is {got:.1f} instead of {want:.1f}",
+                              {"kind": "scalar-weight", "plan": plan, "weight": w, "n": n, "reps": reps, "got": got, "want": want})
+
+
 def sweep(rep, rng, reps, deadline):
     for spec in SPECS:
         if not spec.count_states:
@@ -189,6 +223,7 @@ def sweep(rep, rng, reps, deadline):
 
 def run(rep: Report):
     big_weight_cases(rep, Rng(rep.seed * 1000003 + 1919))
+    scalar_weight_cases(rep, Rng(rep.seed * 1000003 + 1920))
     sweep(rep, Rng(rep.seed * 1000003 + 19), 1 if rep.tier == "quick" else 8, time.time() + budget(rep.tier, 40, 400))
 
 
@@ -200,6 +235,9 @@ def replay(payload) -> bool:
     """True iff the property holds on the recorded case (class, state, injected magnitude, warm-up batch, batches): the
     accumulator after the batches equals injected + their statistics, judged by `measure` (the sweep's oracle)."""
     rp = payload.get("replay") or {}
+    if rp.get("kind") == "scalar-weight":
+        got, want = scalar_weight_case(rp["plan"], float(rp["weight"]), int(rp["n"]), int(rp["reps"]))
+        return got == want
     if rp.get("kind") == "big-weights":
         r2 = Report("C19", "quick", 0)
         import torcheval.metrics as M
